@@ -105,6 +105,8 @@ type Machine struct {
 	typeHandles map[string]*Opaque
 	embedsDone  map[*ssa.Package]bool
 	initSkipped map[*ssa.Package]bool
+	files       map[string]*memFile
+	fileOf      map[Ptr]*memFile
 	ufApps      map[string][]ufApp
 	curH        int
 	lastH       int
@@ -524,6 +526,8 @@ func (m *Machine) RunPath(fn *ssa.Function, prefix []int32) (res PathResult) {
 	m.notes = nil
 	m.threads = nil
 	m.scope = nil
+	m.files = nil
+	m.fileOf = nil
 	m.ufInj = map[string][]T{}
 	m.S.PopTo(0)
 	m.S.Push()
